@@ -3,7 +3,8 @@
    /repo/matid/geometry/geometry.py on every run (Generated/RadiiGen.v). *)
 From Coq Require Import QArith List Bool Lia.
 Import ListNotations.
-From MV Require Import Geometry.Radii Generated.RadiiGen Reflect.RadiiReflect Reflect.RadiiInst.
+From MV Require Import Geometry.Radii Reflect.RadiiReflect.
+From MVD Require Import Generated.RadiiGen Inst.RadiiInst.
 
 (* Every preset resolves, for every element Z = 1..103, to the documented (ASE) table; for
    'vdw_covalent' to the van der Waals radius where one is defined and the covalent radius otherwise. *)
